@@ -10,6 +10,8 @@ def repo_hook_commits():
     except Exception:
         return []
 
+GRAPH_NOTE = ("Trusted: TLC, the harness executor, hook H2's projection being everything later calls depend on (attacked by poison hook H1 and random walks). "
+              "Bounded by the explicit palette of configurations / argument classes in MC_Codec.tla; outside it, sampled by trace-validated walks.")
 CLAIMED = {
  "C02": dict(
    technique="TLA+ trace validation: TLC evaluates the closed-form Cauchy code over GF(2^16) on recorded encode rounds",
@@ -19,6 +21,57 @@ CLAIMED = {
         "corners in the thorough tier; data, slots and large configurations are sampled. The definitions themselves are model-checked on small fields.",
    note="Trusted: TLC, CommunityModules overrides, harness logging. Large configurations are checked on sampled recovery indexes / unit-vector columns (sound by linearity, C13).",
    ref="DESIGN.md section 5, C02"),
+ "C05": dict(
+   technique="TLC state graph of Codec.tla replayed into the code as random walks with poisoned memory + trace validation of the same walks",
+   text="TLC explores the reachable graph of the object protocol (Codec.tla) over a palette whose configurations shrink, grow, change block count, cross "
+        "high/low rate and move the working space between codec kinds. Seeded walks over that graph are executed on every engine with the working "
+        "memory overwritten by a never-repeating stream at every resize (so every possible stale content is exercised); after every step the real "
+        "object's projection must equal the model state and every result must equal a fresh dedicated-rate reference codec. The walks are also "
+        "recorded and validated event by event by Trace_Codec.tla.",
+   note=GRAPH_NOTE, ref="DESIGN.md section 5, C05"),
+ "C06": dict(
+   technique="exhaustive edge replay of TLC's Codec.tla state graph (every failing call from every reachable state) + OneShot cases",
+   text="For every call the specification computes the set of violated documented preconditions (CodecRules.tla); TLC enumerates every call of the "
+        "argument palette (usize extremes, simultaneous violations) from every reachable object state and prints each edge with its allowed returns. "
+        "The harness performs one implementation run per edge (overflow checks on): Ok iff no precondition is violated, otherwise an Err whose variant "
+        "and fields equal one violated precondition; a panic is never allowed. Exhaustive over the palette graph; the one-shot functions are covered "
+        "by MC_OneShot cases.",
+   note=GRAPH_NOTE, ref="DESIGN.md section 5, C06"),
+ "C07": dict(
+   technique="edge replay of TLC's Codec.tla graph through inserted failing calls; FailureIsNoop action property in the model",
+   text="In Codec.tla a failing call leaves every state variable unchanged (checked by TLC as an action property). Every edge of the graph is replayed "
+        "through one (thorough: also two) failing calls taken from the source state's failing edges; the projection after each failing call must equal "
+        "the source state and the continuation (up to a result whose bytes are compared with a reference codec) must behave as the model says.",
+   note=GRAPH_NOTE, ref="DESIGN.md section 5, C07"),
+ "C10": dict(
+   technique="TLC enumerates all short argument lists of OneShot.tla (fold of the streaming rules); each case replayed on the real functions",
+   text="OneShot.tla defines encode()/decode() as the fold of the streaming API's rule sets over the argument lists and, separately, the set of all "
+        "truthful errors; TLC checks the fold lies inside the contract for every argument list with at most 3 (thorough 4) shards over the palette and "
+        "emits every case. The harness runs each case on the real one-shot function and on ReedSolomonEncoder/Decoder side by side: return value in "
+        "the allowed set, Ok iff the contract is empty, identical results, restored indexes as specified.",
+   note="Trusted: TLC, harness. Bounded by the palette (counts {0,1,2,3,65536,MAX}, indexes {0,1,k-1,k,MAX}, lengths {64,66,1,0}) and MaxShards.",
+   ref="DESIGN.md section 5, C10"),
+ "C11": dict(
+   technique="exhaustive edge replay of the decoder graph of Codec.tla (state = index sets, so every arrival order is a path to one node)",
+   text="The decoder state of Codec.tla is a pair of index sets, so all arrival orders and all surplus sets reach the same node. Every add/decode/"
+        "query/iter edge of the graph is replayed on every engine, with the projection and the restored bytes compared at the target node: by "
+        "induction over path length every order and every superset (within the palette, k+r<=5, thorough 6) yields the same restored originals, "
+        "given originals are never reported, and nothing is restored when all originals are given.",
+   note=GRAPH_NOTE, ref="DESIGN.md section 5, C11"),
+ "C12": dict(
+   technique="edge replay of query/iter/drop transitions on every live state of TLC's Codec.tla graph + multi-round walks",
+   text="RecoveryView/RestoredView in Codec.tla fix which indexes a result exposes. On every state with a live result the harness replays "
+        "recovery(i)/restored_original(i) over the index palette (0..3, 65535, 65536, MAX-1, MAX), iteration to exhaustion plus three more polls, "
+        "and drop followed by a new round, comparing presence, length, order and bytes with the model and a reference codec; walks chain many rounds.",
+   note=GRAPH_NOTE, ref="DESIGN.md section 5, C12"),
+ "C17": dict(
+   technique="trace validation against Codec.tla's history variable `held` with a counting allocator armed around every call",
+   text="Codec.tla carries `held`, the largest working-space need since the work space was created, and marks each call may_alloc iff the new "
+        "configuration needs more. Walks over the graph with large shards (64x palette) are executed with a counting global allocator and buffer "
+        "address/capacity snapshots; Trace_Codec.tla rejects any call that allocates at least one shard's worth of memory or moves the buffer "
+        "although the specification says the held space suffices (rounds, equal/shrinking resets, re-housing across kinds).",
+   note="Trusted: TLC, allocator instrumentation. Shard-proportional is decided with shards >= 4 KiB: anything at least one shard long.",
+   ref="DESIGN.md section 5, C17"),
 }
 PENDING = {}
 for i in range(1, 18):
